@@ -35,6 +35,7 @@ func main() {
 	runCore(f, res)
 	runNested(f, res)
 	runRim(f, res)
+	runRim2(f, res)
 	runModels(f, res)
 	if err := res.Write(f.Out); err != nil {
 		lib.Fatal(err)
@@ -75,6 +76,26 @@ func replay(f lib.Flags) int {
 		}
 		runNestedSeq(ns, m)
 		fmt.Printf("replay core-nested seq=%d seed=%d steps=%d\n", ns.Seq, ns.Seed, ns.Steps)
+	case "merge":
+		var c mergeCase
+		if err := json.Unmarshal(b, &c); err != nil {
+			lib.Fatal(err)
+		}
+		ans, changed := runMergeCase(c)
+		if changed {
+			m.Violate("C07/metadatapb/MergeMetadata/writes-stored-traits", "MergeMetadata changed the trait messages held by the store before the call", c, c.Old, ans)
+		}
+		fmt.Printf("replay merge %v -> %s\n", c, ans)
+	case "seed":
+		var c seedCase
+		if err := json.Unmarshal(b, &c); err != nil {
+			lib.Fatal(err)
+		}
+		ans, changed := runSeedCase(c)
+		if changed {
+			m.Violate("C07/enterleavesensorpb/PullEnterLeaveEvents/writes-stored-event", "opening a Pull changed the stored event", c, "unchanged", ans)
+		}
+		fmt.Printf("replay seed %v -> %s\n", c, ans)
 	case "rim":
 		var c rcase
 		if err := json.Unmarshal(b, &c); err != nil {
